@@ -19,19 +19,30 @@ META = dict(
     level_text="Lean 4 theorems over all traces of a transition-system model of EngineRunner / "
                "assign_sequence_number: every produced message is in exactly one place (no loss or duplication inside "
                "the runner), one unique sequence number per message kept across re-sends, a re-send only after a "
-               "failed attempt, empty buffer in Reconnected unless a buffer task was orphaned; the full property is "
-               "refuted on the code as it is by three machine-checked counterexample traces (stop notification "
-               "overtakes buffered run data; failed messages never buffered; messages stranded in the buffer while "
-               "Reconnected) and proved for all traces without the three triggers. The model is tied to the code by "
+               "failed attempt, empty buffer in Reconnected unless a buffer task was orphaned; the full property (incl. the "
+               "delivery clause: once caught up, every message with evidence of a disconnect has been delivered) is "
+               "refuted on the code as it is by machine-checked counterexample traces (stop notification "
+               "overtakes buffered run data; failed messages never buffered or cancelled with the state task; messages "
+               "stranded in the buffer while "
+               "Reconnected) and proved clause by clause for all traces without the respective triggers. The model is tied to the code by "
                "trace validation: the real EngineRunner is run under a deterministic virtual-time event loop with a "
                "scripted fallible transport over systematically enumerated and random schedules, and every logged "
                "trace must be accepted by the model.",
     level_note="Partial by construction: the model's atomic steps are the code between two awaits (asyncio cannot "
                "preempt finer); ticks/timers/the connection handshake are free labels constrained by guards, one guard "
-               "embodies a timing assumption (a cancelled task ends before the >= 0.5 s reconnect delay). Transport = "
+               "embodies a timing assumption (a cancelled task ends before the >= 0.5 s reconnect delay). The tie is "
+               "sensitive to refactorings that change the await structure of engine_runner.py (an added await, gather -> "
+               "TaskGroup, a different hand-over of _state_task): the token language mirrors it, so such a change shows "
+               "up as 'trace not accepted' (VIOLATION ... no-failing-input-found) and the model has to follow; task NAME "
+               "strings, log texts, timer constants and message payloads are not looked at (task roles are recognised "
+               "by their coroutine's code object). The harness overrides BaseEventLoop._run_once/_scheduled of CPython "
+               "3.12 for virtual time. Transport = "
                "ordered channel with ok / ProtocolNetworkException outcomes (other exceptions and shutdown are outside "
-               "the property). The order and stranded/loss clauses are proved only for traces without the three "
-               "reproduced defects (C27_partial); trusted: Lean kernel, the harness (virtual loop, fake dispatcher, "
+               "the property). Delivery/loss are proved for all traces without the recorded defects (a: self-cancelled state "
+               "task, f: failed send cancelled with the state task), incl. repeated outages during catch-up; the order clause "
+               "additionally excludes, in the model, a fault hitting a catch-up re-send and a stop buffered between batch "
+               "take and posts (model-level limits, shown necessary by order_needs_c/d_in_model; on such real traces the "
+               "order clause is judged by the oracle only, see evidence traces_vs_partial_theorem_hypotheses); trusted: Lean kernel, the harness (virtual loop, fake dispatcher, "
                "message builder), the oracle.",
     technique="Lean 4 proof (invariants by induction over traces of a labelled transition system) + trace validation of "
               "the real EngineRunner under a virtual-time asyncio loop with enumerated schedules",
@@ -42,7 +53,8 @@ REQUIRED = ["OPM.C27.conservation", "OPM.C27.delivered_at_most_once", "OPM.C27.r
             "OPM.C27.attempts_one_sequence_number",
             "OPM.C27.caught_up_buffer_empty", "OPM.C27.buffered_never_dropped", "OPM.C27.steps_iff_run",
             "OPM.C27.C27_counterexample", "OPM.C27.C27_counterexample_loss", "OPM.C27.C27_counterexample_stranded",
-            "OPM.C27.C27_partial"]
+            "OPM.C27.C27_counterexample_delivery", "OPM.C27.C27_delivery_partial", "OPM.C27.C27_order_partial",
+            "OPM.C27.C27_partial", "OPM.C27.order_needs_c_in_model", "OPM.C27.order_needs_d_in_model"]
 
 ABBR = {"Started": "St", "Connected": "Co", "Failed": "Fa", "Disconnected": "Di", "Reconnecting": "Rg",
         "CatchingUp": "Cu", "Reconnected": "Rd", "Stopped": "Sp", "ShutdownComplete": "Sc"}
@@ -122,14 +134,23 @@ def _nontrivial(case, out) -> bool:
 
 def run(ctx: Check) -> int:
     from harness.runner_sim import explore, simulate
+    from harness.runner_oracle import check
     import time
+    import resource
+
+    def cpu():
+        c = resource.getrusage(resource.RUSAGE_CHILDREN)
+        return time.process_time(), c.ru_utime + c.ru_stime
     t0 = time.time()
+    c0 = cpu()
     ctx.prove(MODULE, REQUIRED)
-    timing = {"prove": round(time.time() - t0, 1)}
+    timing = {"prove": round(time.time() - t0, 1), "prove_cpu_children": round(cpu()[1] - c0[1], 1)}
+    c0 = cpu()
     t0 = time.time()
     rng = ctx.rng
     seen: set[str] = set()
-    cases: dict[str, list[dict]] = {"corpus": [], "explore": [], "random-conn": [], "random-indep": [], "weird": []}
+    cases: dict[str, list[dict]] = {"corpus": [], "explore": [], "random-conn": [], "random-indep": [],
+                                    "large-buffer": [], "weird": []}
     results: dict[int, object] = {}
 
     def add(stream: str, case: dict, res) -> None:
@@ -152,8 +173,8 @@ def run(ctx: Check) -> int:
 
     # 1. systematic enumeration of schedules
     base = [("start",), ("stop",)]
-    scopes = [dict(faults=2, others=2, total=2, depth=ctx.n(24, 40)),
-              dict(faults=3, others=ctx.n(0, 1), total=3, depth=ctx.n(20, 30))]
+    scopes = [dict(faults=2, others=2, total=2, depth=ctx.n(22, 40)),
+              dict(faults=3, others=ctx.n(0, 1), total=3, depth=ctx.n(18, 30))]
     complete = True
     for sc in scopes:
         for prefix, res in explore(base, limit=ctx.n(6000, 120000), mode="conn", ev_window=12, **sc):
@@ -165,7 +186,7 @@ def run(ctx: Check) -> int:
 
     # 2. random schedules: longer runs, more faults, several scripts, both failure models
     max_f = ctx.n(3, 5)
-    for stream, mode, n in (("random-conn", "conn", ctx.n(160, 5000)), ("random-indep", "indep", ctx.n(100, 3000))):
+    for stream, mode, n in (("random-conn", "conn", ctx.n(160, 5000)), ("random-indep", "indep", ctx.n(80, 3000))):
         for _ in range(n):
             script = rng.choice(SCRIPTS)
             r = random.Random(rng.random())
@@ -177,6 +198,35 @@ def run(ctx: Check) -> int:
                            probs={"send": r.choice([0.02, 0.05, 0.15, 0.3]), "conn": r.choice([0.1, 0.4])})
             add(stream, {"script": script, "prefix": [v for _, _, v in res.choices], "mode": mode, "ev_window": 60,
                          "max_faults": mf, "horizon": hz, "fault_until": fu, "min_time": res.t_end - 0.45}, res)
+    # 2b. long outage: >= 100 buffered messages (the `wrap` branch of _send_buffered_batch), further faults
+    #     possible while the big batch is in flight
+    for _ in range(ctx.n(10, 150)):
+        r = random.Random(rng.random())
+        nmsg, k = r.randrange(100, ctx.n(131, 221)), r.randrange(3, 14)
+        script = [["start"], ["await", "Disconnected"]] + [["notify"]] * nmsg + [["stop"]]
+        st = {"c": 0, "done": False}
+
+        def pol(tag, n, i, sim, st=st, k=k):
+            if tag == "evd":
+                return 0
+            if tag == "conn" and not st["done"]:
+                return 0
+            if tag == "send" and not st["done"] and n == 4:
+                st["c"] += 1
+                if st["c"] >= k:
+                    st["done"] = True
+                    return 1
+                return 0
+            return None
+        mf = r.choice([1, 2, 3])
+        res = simulate([tuple(e) for e in script], [], mode="conn", rnd=r, policy=pol, max_faults=mf, ev_window=4,
+                       horizon=45.0, fault_until=12.0,
+                       probs={"send": 0.01, "conn": 0.3, "wait": 0.5, "tags": 0.3, "evd": 0.0})
+        if any(t[0] == "G" and int(t[1:]) >= 100 for t in res.tokens):
+            ctx.count("batch>=100")
+        add("large-buffer", {"script": script, "prefix": [v for _, _, v in res.choices], "mode": "conn", "ev_window": 4,
+                             "max_faults": mf, "horizon": 45.0, "fault_until": 12.0,
+                             "min_time": res.t_end - 0.45}, res)
     # 3. malformed use: events before the first connection, stop without a run, two starts, no events
     for _ in range(ctx.n(60, 800)):
         script = rng.choice(WEIRD)
@@ -198,7 +248,9 @@ def run(ctx: Check) -> int:
                 "completed catch-up (Reconnected reached). Identical traces are checked once.")
 
     timing["simulate+oracle"] = round(time.time() - t0, 1)
+    timing["simulate+oracle_cpu"] = round(cpu()[0] - c0[0], 1)
     t0 = time.time()
+    c0 = cpu()
     # correspondence: the logged trace must be accepted by the model and end in the observed state
     def lines(case):
         return ["trace\t" + " ".join(_tokens(results[id(case)]))]
@@ -206,55 +258,84 @@ def run(ctx: Check) -> int:
     def impl(case):
         return [_summary(results[id(case)])]
 
-    first_out = None
-    first_cases = None
+    allc = []
     for stream, cs in cases.items():
-        if not cs:
-            continue
-        _, mout = ctx.correspond(stream, "Runner", cs, lines, impl, nontrivial=_nontrivial)
-        if first_out is None and stream == "explore":
-            first_out, first_cases = mout, cs
-    ctx.evaluations -= sum(len(c) for c in cases.values())  # already counted when simulated
+        for c in cs:
+            c["_stream"] = stream
+            allc.append(c)
+    n_diffs = len(ctx.diffs)
+    _, mout = ctx.correspond("traces", "Runner", allc, lines, impl, nontrivial=_nontrivial)
+    ctx.evaluations -= len(allc)  # already counted when simulated
+    per = {st: {"cases": len(cs), "disagreements": 0} for st, cs in cases.items()}
+    for d in ctx.diffs[n_diffs:]:
+        per[d.case.get("_stream", "?")]["disagreements"] += 1
+    ctx.extra["traces_per_stream"] = per
 
-    # self-test: a model without "send while CatchingUp" must reject real traces
-    if first_cases and first_out:
-        k = min(len(first_cases), 100)
-        ctx.selftest("explore", "Runner", first_cases[:k],
-                     lambda c: ["mutant\t" + " ".join(_tokens(results[id(c)]))], first_out[:k])
-        # impossible traces must be rejected: a changed sequence number, a message answered twice
-        corrupt = []
-        for c in first_cases:
-            toks = _tokens(results[id(c)])
-            ks = [i for i, t in enumerate(toks) if t[0] == "K"]
-            ss = [i for i, t in enumerate(toks) if t[0] in "SB" and ":" in t]
-            if ks and ss:
-                i = ks[len(ks) // 2]
-                corrupt.append(toks[:i + 1] + [toks[i]] + toks[i + 1:])
-                j = ss[len(ss) // 2]
-                a, b = toks[j].split(":")
-                corrupt.append(toks[:j] + [f"{a}:{int(b) + 1}"] + toks[j + 1:])
-            if len(corrupt) >= ctx.n(60, 120):
-                break
-        ctx.correspond("corrupted-traces", "Runner", corrupt, lambda t: ["verdict\t" + " ".join(t)],
-                       lambda t: ["rej"])
-        # model-side verdicts on the same traces vs the oracle (diagnostic: both should name the same runs)
-        sample = [c for c in first_cases if c["_nontrivial"]][:ctx.n(120, 2000)]
-        flags = drive("Runner", [["flags\t" + " ".join(_tokens(results[id(c)]))] for c in sample])
-        from harness.runner_oracle import check
-        agree = 0
-        for c, fl in zip(sample, flags):
-            keys = {k for k, _ in check(results[id(c)])}
-            m_ov = "ov=1" in fl[0]
-            m_stuck = not fl[0].endswith("stuck=-")
-            o_ov = any(k.startswith("stop-overtakes") for k in keys)
-            o_stuck = "failed-send-never-buffered" in keys
-            if not (o_ov and not m_ov) and not (o_stuck and not m_stuck):
-                agree += 1   # the model flags at least what the oracle reports
-            else:
-                ctx.notes.append(f"oracle reports {sorted(keys)} but model flags '{fl[0]}' on {c['prefix']}")
-        ctx.extra["oracle_vs_model_flags"] = {"runs": len(sample), "model_covers_oracle": agree}
+    # one more pass of the driver over (a) a mutant model: without "send while CatchingUp" it must reject real
+    # traces (self-test); (b) the model's own verdicts (order flag, stuck) and the first step outside the partial
+    # theorems' hypotheses, for every sampled trace
+    explore_cases = cases["explore"] or allc
+    k = min(len(explore_cases), 60)
+    step = max(1, len(allc) // ctx.n(300, 6000))
+    sample = allc[::step]
+    out = drive("Runner", [["mutant\t" + " ".join(_tokens(results[id(c)]))] for c in explore_cases[:k]] +
+                [["info\t" + " ".join(_tokens(results[id(c)]))] for c in sample])
+    mutant_out, info_out = out[:k], out[k:]
+    ref = {id(c): o for c, o in zip(allc, mout)}
+    if mout and all(mutant_out[i] == ref.get(id(explore_cases[i])) for i in range(k)):
+        raise Infra("self-test of the trace stream: mutant model indistinguishable — harness is blind")
+    ctx.extra.setdefault("selftests", []).append("traces/mutant-model")
+    cls: dict[str, int] = {}
+    agree = cd_order_viol = 0
+    for c, v in zip(sample, info_out):
+        res = results[id(c)]
+        keys = {key for key, _ in check(res)}
+        o_ov = any(key.startswith("stop-overtakes") for key in keys)
+        o_stuck = "failed-send-never-buffered:handler-waits-for-self-cancelled-state-task" in keys
+        if not v[0].startswith("ov="):
+            cls["rejected"] = cls.get("rejected", 0) + 1
+            continue
+        m_ov = "ov=1" in v[0]
+        m_stuck = "stuck=-" not in v[0]
+        kcls = v[0].split("cls=")[1]
+        kcls = "calm" if kcls == "calm" else "trigger-" + kcls
+        cls[kcls] = cls.get(kcls, 0) + 1
+        if (o_ov and not m_ov and c.get("mode") != "indep") or (o_stuck and not m_stuck):
+            ctx.notes.append(f"oracle reports {sorted(keys)} but model flags '{v[0]}' on {c['prefix'][:40]}")
+        else:
+            agree += 1   # the model flags at least what the oracle reports
+        if kcls == "calm" and (o_ov and c.get("mode") != "indep" or o_stuck):
+            ctx.notes.append(f"oracle reports {sorted(keys)} on a Calm trace {c['prefix'][:40]}")
+        if kcls in ("trigger-c", "trigger-d") and c.get("mode") != "indep" and o_ov:
+            cd_order_viol += 1
+    ctx.extra["oracle_vs_model_flags"] = {"runs": len(sample), "model_covers_oracle": agree}
+    # which real traces are inside the hypotheses of the partial theorems (Calm), and which trigger takes the
+    # others out: a/b/e/f = the recorded defects, c/d = a fault during catch-up (order clause: oracle only there)
+    ctx.extra["traces_vs_partial_theorem_hypotheses"] = dict(
+        sampled=len(sample), classes=cls,
+        note="trigger-c/d: second outage during catch-up; delivery/stuck/stranded clauses are proved for them "
+             "(C27_delivery_partial has no such hypothesis), the order clause is judged there by the oracle only",
+        order_violations_on_c_d_traces=cd_order_viol)
+
+    # impossible traces must be rejected: a changed sequence number, a message answered twice
+    corrupt = []
+    for c in explore_cases:
+        toks = _tokens(results[id(c)])
+        ks = [i for i, t in enumerate(toks) if t[0] == "K"]
+        ss = [i for i, t in enumerate(toks) if t[0] in "SB" and ":" in t]
+        if ks and ss:
+            i = ks[len(ks) // 2]
+            corrupt.append(toks[:i + 1] + [toks[i]] + toks[i + 1:])
+            j = ss[len(ss) // 2]
+            a, b = toks[j].split(":")
+            corrupt.append(toks[:j] + [f"{a}:{int(b) + 1}"] + toks[j + 1:])
+        if len(corrupt) >= ctx.n(60, 120):
+            break
+    ctx.correspond("corrupted-traces", "Runner", corrupt, lambda t: ["verdict\t" + " ".join(t)],
+                   lambda t: ["rej"])
 
     timing["model"] = round(time.time() - t0, 1)
+    timing["model_cpu_self+children"] = round(cpu()[0] - c0[0] + cpu()[1] - c0[1], 1)
     ctx.extra["timing_s"] = timing
     ctx.assumptions = [
         "transport = ordered channel (like the websocket RPC: requests handled and answered in send order); a send "
